@@ -221,6 +221,16 @@ func genEIT() (out []tableCase) {
 		}
 		mk(fmt.Sprintf("events=%d", n), d, ref.SecHdr{CNI: true})
 	}
+	// one event with a descriptor loop that needs all 12 bits of descriptors_loop_length
+	for _, nd := range []int{3, 4, 5, 8, 12, 15} {
+		var ds []*astits.Descriptor
+		for i := 0; i < nd; i++ {
+			ds = append(ds, &astits.Descriptor{Tag: uint8(0x90 + i), UserDefined: fillBytes(255, uint8(i))})
+		}
+		mk(fmt.Sprintf("descriptor loop of %d bytes", nd*257), &astits.EITData{ServiceID: 9, TransportStreamID: 8, OriginalNetworkID: 7, Events: []*astits.EITDataEvent{
+			{EventID: 1, StartTime: dvbTimes[2], Duration: time.Hour, RunningStatus: 4, Descriptors: fixLens(ds)},
+			{EventID: 2, StartTime: dvbTimes[3], Duration: time.Minute, RunningStatus: 1, Descriptors: descRot(1, 1)}}}, ref.SecHdr{CNI: true})
+	}
 	for _, t := range dvbTimes {
 		for _, du := range []time.Duration{0, time.Second, 99*time.Hour + 59*time.Minute + 59*time.Second, 12*time.Hour + 34*time.Minute + 56*time.Second} {
 			mk("time", &astits.EITData{ServiceID: 1, Events: []*astits.EITDataEvent{{EventID: 1, StartTime: t, Duration: du, RunningStatus: 1}}}, ref.SecHdr{CNI: true})
